@@ -647,6 +647,77 @@ func ruleOuterCompleteWaitsInner() check.Rule {
 							c.Report(armed, ckey, in.Pos, "the inner observable is subscribed before the live-subscription counter is incremented: an inner observable that completes synchronously decrements first, the counter reaches zero and the output completes while other sources are still running")
 						}
 					}
+					// a Complete that depends on a live-subscription counter sits on the "counter is zero" side
+					for _, e := range sc.Emits {
+						if !e.ToDest || e.Kind != model.EmitComplete || e.Forwarder {
+							continue
+						}
+						fn := innermostFunc(m, e.Pkg, e.Node)
+						body := funcBody(fn)
+						if body == nil {
+							continue
+						}
+						einfo := e.Pkg.TypesInfo
+						counterAtom := func(x ast.Expr) int {
+							be, ok := ast.Unparen(x).(*ast.BinaryExpr)
+							if !ok || (be.Op != token.EQL && be.Op != token.NEQ) || !constIs(einfo, be.Y, 0) {
+								return 0
+							}
+							fromAtomic := false
+							ast.Inspect(be.X, func(y ast.Node) bool {
+								if id, ok := y.(*ast.Ident); ok {
+									for _, d := range m.Defs[objOf(einfo, id)] {
+										if d.Expr != nil {
+											ast.Inspect(d.Expr, func(z ast.Node) bool {
+												if call, ok := z.(*ast.CallExpr); ok {
+													if cl := model.Callee(einfo, call); cl != nil && cl.Pkg() != nil && cl.Pkg().Path() == "sync/atomic" {
+														fromAtomic = true
+													}
+												}
+												return true
+											})
+										}
+									}
+								}
+								if call, ok := y.(*ast.CallExpr); ok {
+									if cl := model.Callee(einfo, call); cl != nil && cl.Pkg() != nil && cl.Pkg().Path() == "sync/atomic" {
+										fromAtomic = true
+									}
+								}
+								return true
+							})
+							if !fromAtomic {
+								return 0
+							}
+							if be.Op == token.EQL {
+								return +1
+							}
+							return -1
+						}
+						mentions := false
+						ast.Inspect(body, func(y ast.Node) bool {
+							if ifs, ok := y.(*ast.IfStmt); ok {
+								ast.Inspect(ifs.Cond, func(z ast.Node) bool {
+									if ex, ok := z.(ast.Expr); ok && counterAtom(ex) != 0 {
+										mentions = true
+									}
+									return true
+								})
+							}
+							return true
+						})
+						if !mentions {
+							continue
+						}
+						zkey := e.Key + "/at-counter-zero"
+						if guardedByEdge(body, e.Node, func(cond ast.Expr, pol bool) bool { return implies(cond, pol, counterAtom) }) {
+							if armed {
+								c.OK(zkey, e.Pos, "Complete is sent on the side where the live-subscription counter is zero")
+							}
+						} else {
+							c.Report(armed, zkey, e.Pos, "the function tests a live-subscription counter against zero, but this Complete is not on the zero side: the output completes while subscriptions are still live (or never)")
+						}
+					}
 					if uncond != nil {
 						c.Report(armed, key, uncond.Pos, "the output is completed unconditionally when the outer source completes, although %d inner subscribe site(s) created in its next slot are not awaited there: the output ends while inner observables are still running and their remaining values are dropped", inner)
 					} else if armed {
